@@ -28,7 +28,8 @@ Kids(F, p) == {k \in Ids(F) : F[k].par = p}
 Roots(F) == {n \in Ids(F) : F[n].par = 0}
 
 \* TLC: a function written as [i \in 1..n |-> e] is evaluated lazily, e again at every application; Mat makes it an explicit
-\* tuple once (pure efficiency, no meaning)
+\* tuple once.  TLC also re-evaluates a LET-bound value at every use but evaluates an operator ARGUMENT once: that is why
+\* tabulated values travel as arguments (the ...T operators) instead of LET definitions.  Pure efficiency, no meaning.
 Mat(s) == SubSeq(s, 1, Len(s))
 
 \* ---------------------------------------------------------------- length: explicit size wins, else max(own binary, child ends) aligned up
@@ -59,7 +60,8 @@ RECURSIVE DebatableT(_, _, _)
 DebatableT(F, T, n) == \/ \E k \in T.kids[n] : DebatableT(F, T, k)
                        \/ \E j, k \in T.kids[n] : j # k /\ T.len[k] = 0 /\ F[j].off < F[k].off /\ F[k].off < F[j].off + T.len[j]
 \* what validate() must say:  "ok", "error", or "any" where the property is silent
-Verdict(F, n) == LET T == Tab(F) IN IF ~ValidT(F, T, n) THEN "error" ELSE IF DebatableT(F, T, n) THEN "any" ELSE "ok"
+VerdictT(F, T, n) == IF ~ValidT(F, T, n) THEN "error" ELSE IF DebatableT(F, T, n) THEN "any" ELSE "ok"
+Verdict(F, n) == VerdictT(F, Tab(F), n)
 
 \* ---------------------------------------------------------------- the source of byte i (0-based) of the export of node n
 Zero == [k |-> "zero", n |-> 0, i |-> 0]
@@ -150,17 +152,16 @@ TypeOK == \A n \in Ids(forest) : /\ forest[n].par \in {0} \cup Ids(forest) /\ fo
                                  /\ RootOf(forest, n) \in Roots(forest)
 StaysInDomain == InDomain(forest)
 \* in a valid tree every byte of every sub-image (at any depth) appears at the sub-image's absolute offset
-ChildBytesInPlaceOf(F) == LET T == Tab(F) IN
-                          \A r \in Roots(F) : ValidT(F, T, r) =>
-                            \A d \in Desc(F, r) : \A i \in 0..(T.len[d] - 1) : SrcT(F, T, r, Abs(F, d) - Abs(F, r) + i) = SrcT(F, T, d, i)
-ChildBytesInPlace == ChildBytesInPlaceOf(forest)
+ChildBytesT(F, T) == \A r \in Roots(F) : ValidT(F, T, r) =>
+                       \A d \in Desc(F, r) : \A i \in 0..(T.len[d] - 1) : SrcT(F, T, r, Abs(F, d) - Abs(F, r) + i) = SrcT(F, T, d, i)
+ChildBytesInPlace == ChildBytesT(forest, Tab(forest))
 \* alignment padding only extends the end: the derived length is the aligned-up maximum, less than one alignment unit longer,
 \* and the padding holds the node's own fill
-PaddingOnlyAtEndOf(F) == LET T == Tab(F) IN \A n \in Ids(F) :
+PaddingT(F, T) == \A n \in Ids(F) :
      /\ T.len[n] % F[n].al = 0
      /\ F[n].size0 = 0 => /\ T.len[n] >= MaxEnd(F, n) /\ T.len[n] - MaxEnd(F, n) < F[n].al
                           /\ \A i \in MaxEnd(F, n)..(T.len[n] - 1) : SrcT(F, T, n, i).k \in {"pat", "zero"} /\ SrcT(F, T, n, i).n \in {0, n}
-PaddingOnlyAtEnd == PaddingOnlyAtEndOf(forest)
+PaddingOnlyAtEnd == PaddingT(forest, Tab(forest))
 \* the map has exactly the reported length and a node without children and pattern exports its binary, zero-extended
 LeafExport == \A n \in Ids(forest) : Kids(forest, n) = {} =>
                  /\ ILen(forest, n) >= Len(forest[n].bin)
@@ -170,7 +171,8 @@ VerdictMonotone == \A n \in Ids(forest) : \A k \in Kids(forest, n) : Verdict(for
 \* join_images changes no byte of any image
 JoinPreserves == [][act'.a = "Join" => \A r \in Roots(forest) : r \in Roots(forest') /\ Map(forest', r) = Map(forest, r)]_vars
 \* absolute address -> payload byte
-DataMap(F, r) == LET M == Map(F, r) IN {<<F[r].off + i - 1, M[i]>> : i \in {j \in 1..Len(M) : M[j].k = "bin"}}
+DataMapOf(F, r, M) == {<<F[r].off + i - 1, M[i]>> : i \in {j \in 1..Len(M) : M[j].k = "bin"}}
+DataMap(F, r) == DataMapOf(F, r, Map(F, r))
 \* update_offsets moves no payload byte to another absolute address (as long as the tree stays valid and the node has no own binary)
 UpdateOffsetsPreserves ==
   [][act'.a = "UpdateOffsets" /\ forest[act'.n].bin = <<>> =>
